@@ -237,7 +237,7 @@ func runA(c *fw.Ctx, chunk *last.Chunk, g *lgen.Gen, base Case, onlyK int, onlyK
 			}
 			fi := lrun.RunImpl(base.Src, fcfg)
 			bad := ""
-			if fm.In.Tags["error-in-handler"] > 0 {
+			if fm.In.Tags["fault-in-handler"] > 0 {
 				// the fault struck inside an xpcall message handler: only the canaries apply
 				if fi.GoPanic != "" || fi.RTFault != "" {
 					bad = "canary: " + fi.GoPanic + fi.RTFault
